@@ -478,6 +478,52 @@ def explore_real(tier, props):
     return found, runs
 
 
+def replay_died_for_real():
+    """Function-level replay of ProcessExecutor._consume_result_queue/ensures[DIED-FOR-REAL]: a worker that puts its
+    result and exits right AFTER the result queue was found empty.  The real method is called on a real ProcessExecutor
+    whose queue and process are scripted doubles (no timing involved): is_alive() is True until the queue has reported
+    Empty once, the item becomes available at that same moment.  A future failed with TaskDiedError while its result
+    is on the queue is the witness."""
+    import queue as _q
+    from labtech.exceptions import TaskDiedError
+    from labtech.runners.process import Future, ProcessExecutor
+    ex = ProcessExecutor.__new__(ProcessExecutor)
+    ex.mp_context, ex.max_workers = None, 1
+    ex._pending_future_to_thunk = {}
+    state = dict(empty_seen=False)
+
+    class Q:
+        def __init__(self):
+            self.items = []
+
+        def get(self, block=True, timeout=None):
+            if state['empty_seen'] and self.items:
+                return self.items.pop(0)
+            state['empty_seen'] = True        # the worker puts its result and exits right after this poll
+            raise _q.Empty
+
+    class P:
+        def is_alive(self):
+            return not state['empty_seen']
+
+        def terminate(self):
+            pass
+    fut = Future()
+    ex._result_queue = Q()
+    ex._result_queue.items.append((fut.id, 'the result'))
+    ex._running_id_to_future_and_process = {fut.id: (fut, P())}
+    ex._consume_result_queue(timeout_seconds=0)
+    died = fut.done and isinstance(fut._ex, TaskDiedError)
+    if died:
+        return dict(prop='C01', scenario='function-level/_consume_result_queue', schedule='worker puts its result and exits between the last queue poll and the liveness sample',
+                    message='the future was failed with TaskDiedError although its result is on the result queue (the task would be reported as died and dropped from run_tasks\' result)')
+    # a second call must then deliver the result
+    ex._consume_result_queue(timeout_seconds=0)
+    if not (fut.done and fut._ex is None and fut._result == 'the result'):
+        return dict(prop='C01', scenario='function-level/_consume_result_queue', schedule='second poll', message=f'result not delivered on the next poll (state {fut._state}, ex {fut._ex!r})')
+    return None
+
+
 def main():
     ap = argparse.ArgumentParser()
     ap.add_argument('--prop', default='')
@@ -486,6 +532,15 @@ def main():
     ap.add_argument('--obligation', default='')
     a = ap.parse_args()
     items = []
+    if 'DIED-FOR-REAL' in a.obligation or '_consume_result_queue' in a.obligation:
+        try:
+            w = replay_died_for_real()
+        except Exception:
+            w = None
+            items.append(dict(name='explore:died-for-real', violation=False, error=traceback.format_exc()[-1500:]))
+        print(json.dumps(dict(reproduced=bool(w), level='function', summary=(w['scenario'] + ' [' + w['schedule'] + ']: ' + w['message']) if w else 'scripted poll/liveness interleaving: post-condition holds natively',
+                              bounds=['one scripted interleaving (queue empty, then worker puts and exits)']), default=str))
+        return 1 if w else 0
     try:
         found, n, trunc = explore_controlled(a.tier, 120 if a.tier == 'quick' else 900)
         mine = [f for f in found if not a.prop or f['prop'] == a.prop]
@@ -497,6 +552,10 @@ def main():
             mine3 = [f for f in f3 if not a.prop or f['prop'] == a.prop or a.prop == 'C01']
             items.append(dict(name='explore:multi-call-histories', bounded=True, bound='2 histories of 3 run_tasks calls over the same task objects',
                               violation=bool(mine3), witness=mine3[:3]))
+        if a.prop in ('C01', 'C10', ''):
+            w = replay_died_for_real()
+            items.append(dict(name='explore:poll-vs-liveness-order', bounded=True, bound='one scripted interleaving at function level (_consume_result_queue with scripted queue/process doubles)',
+                              violation=bool(w), witness=[w] if w else []))
         if a.prop in ('C04', 'C05', 'C10', 'C11', ''):
             found2, runs = explore_real(a.tier, {a.prop} if a.prop else {'C04', 'C05', 'C10', 'C11'})
             mine2 = [f for f in found2 if not a.prop or f['prop'] == a.prop]
